@@ -97,8 +97,9 @@ LawProject ==
         /\ ProjCard(q, P1) = Cardinality({Restrict(r, P1) : r \in D(q)})
         /\ (P1 # C(q) => D(Remove(q, C(q) \ P1)) = D(Project(q, P1)))
 
+\* (pairs: every predicate with the "is" and the "lt" predicate of one fixed column)
 LawWhere ==
-    \A p1, p2 \in Preds(C(q)) :
+    \A p1 \in Preds(C(q)) : \A p2 \in Preds({CHOOSE c \in C(q) : TRUE}) :
         /\ D(Where(Where(q, p1), p2)) = D(Where(Where(q, p2), p1))
         /\ D(Where(Where(q, p1), p2)) = D(Where(q, [k |-> "and", es |-> <<p1, p2>>]))
         /\ D(Where(q, p1)) \cup D(Where(q, [k |-> "not", a |-> p1])) = D(q)
@@ -113,7 +114,7 @@ LawSets ==
            /\ D(Bin("minus", q, q)) = {}
            /\ D(Bin("minus", q, Bin("minus", q, r))) = D(Bin("intersect", q, r))
            /\ D(Bin("union", Bin("minus", q, r), Bin("intersect", q, r))) = D(q)
-           /\ \A p2 \in Preds(C(q)) :
+           /\ \A p2 \in Preds({CHOOSE c \in C(q) : TRUE}) :
                 D(Where(Bin("union", q, r), p2)) = D(Bin("union", Where(q, p2), Where(r, p2)))
 
 LawJoin ==
